@@ -184,7 +184,7 @@ func c02InitBeforeReExport(p *Prog) *RuleResult {
 			return
 		}
 		kind := ""
-		deepSlice(c.Call.Args[1], func(v ssa.Value) bool {
+		deepSliceThroughBuilders(c.Call.Args[1], func(v ssa.Value) bool {
 			switch x := v.(type) {
 			case *ssa.FieldAddr:
 				if fieldAddrName(x) == "WrapperRef" {
@@ -615,12 +615,12 @@ func visitedCutRespectsMinimum(p *Prog, rule string) *RuleResult {
 // side runs), so the set is closed: the boolean-valued helpers of js_ast / js_parser that the
 // function consults are exactly the reviewed ones.
 var c03SubstitutionJudges = map[string]string{
-	"ExprCanBeRemovedIfUnused":        "no side effects and nothing evaluated: the moved initialiser cannot observe or affect it",
-	"IsPrimitiveLiteral":              "a literal evaluates to itself",
+	"ExprCanBeRemovedIfUnused":             "no side effects and nothing evaluated: the moved initialiser cannot observe or affect it",
+	"IsPrimitiveLiteral":                   "a literal evaluates to itself",
 	"isSideEffectFreeUnboundIdentifierRef": "guarded typeof-style reference",
-	"substituteSingleUseSymbolInExpr": "the recursion itself",
-	"Has":                             "bit test on flags",
-	"IsValid":                         "index validity",
+	"substituteSingleUseSymbolInExpr":      "the recursion itself",
+	"Has":                                  "bit test on flags",
+	"IsValid":                              "index validity",
 }
 
 func c03SubstitutionJudges_(p *Prog) *RuleResult {
@@ -826,71 +826,87 @@ func c03SwitchSearchUnknown(p *Prog) *RuleResult {
 	if !r.Anchor("js_parser.(*parser).minifySwitchStmt", fn != nil) {
 		return r
 	}
-	loops := naturalLoops(fn)
-	n := 0
-	eachInstr(fn, func(b *ssa.BasicBlock, in ssa.Instruction) {
-		c, ok := in.(*ssa.Call)
-		if !ok || !strings.HasSuffix(calleeFullName(c), "js_ast.CheckEqualityIfNoSideEffects") {
-			return
-		}
-		var header *ssa.BasicBlock
-		var body map[*ssa.BasicBlock]bool
-		for h, bd := range loops {
-			if bd[b] && (body == nil || len(bd) < len(body)) {
-				header, body = h, bd
-			}
-		}
-		if header == nil {
-			return
-		}
-		var okv ssa.Value
-		if c.Referrers() != nil {
-			for _, rf := range *c.Referrers() {
-				if ex, ok := rf.(*ssa.Extract); ok && ex.Index == 1 {
-					okv = ex
+	// the search loop may be written in minifySwitchStmt itself or in a helper of the parser it calls
+	hosts := []*ssa.Function{fn}
+	eachInstr(fn, func(_ *ssa.BasicBlock, in ssa.Instruction) {
+		if c, ok := in.(*ssa.Call); ok {
+			if callee := c.Call.StaticCallee(); callee != nil && pkgPathOf(callee) == pkgPathOf(fn) && callee != fn && len(callee.Blocks) > 0 {
+				for _, h := range hosts {
+					if h == callee {
+						return
+					}
 				}
+				hosts = append(hosts, callee)
 			}
-		}
-		if okv == nil {
-			return
-		}
-		n++
-		r.Instances++
-		key := fmt.Sprintf("minifySwitchStmt search loop #%d: unknown equality ends the search", n)
-		// the If on ok
-		bad := ""
-		for blk := range body {
-			if len(blk.Instrs) == 0 {
-				continue
-			}
-			ifi, isIf := blk.Instrs[len(blk.Instrs)-1].(*ssa.If)
-			if !isIf {
-				continue
-			}
-			cond := ifi.Cond
-			falseIdx := 1
-			if u, isU := cond.(*ssa.UnOp); isU && u.Op == token.NOT {
-				cond, falseIdx = u.X, 0
-			}
-			if cond != okv {
-				continue
-			}
-			unknown := blk.Succs[falseIdx]
-			// does the unknown edge come back to the header while staying in the loop?
-			if unknown == header {
-				bad = p.Pos(firstPos(blk))
-				continue
-			}
-			if _, back := reachesExitAvoiding(unknown, func(x *ssa.BasicBlock) bool { return x == header }, func(x *ssa.BasicBlock) bool { return !body[x] }, false); back && body[unknown] {
-				bad = p.Pos(firstPos(blk))
-			}
-		}
-		if bad == "" {
-			r.OK(key, true, "the unknown edge leaves the loop")
-		} else {
-			r.Fail(key, p.Pos(c.Pos()), "when the equality of a case with the discriminant is unknown the search simply moves on to the next case: `switch (1n) { case 0x1n: case 2n: a(); break; case 1n: b() }` takes `case 1n`, drops the empty `case 0x1n:` and calls b() where the program calls a()")
 		}
 	})
+	n := 0
+	for _, host := range hosts {
+		loops := naturalLoops(host)
+		eachInstr(host, func(b *ssa.BasicBlock, in ssa.Instruction) {
+			c, ok := in.(*ssa.Call)
+			if !ok || !strings.HasSuffix(calleeFullName(c), "js_ast.CheckEqualityIfNoSideEffects") {
+				return
+			}
+			var header *ssa.BasicBlock
+			var body map[*ssa.BasicBlock]bool
+			for h, bd := range loops {
+				if bd[b] && (body == nil || len(bd) < len(body)) {
+					header, body = h, bd
+				}
+			}
+			if header == nil {
+				return
+			}
+			var okv ssa.Value
+			if c.Referrers() != nil {
+				for _, rf := range *c.Referrers() {
+					if ex, ok := rf.(*ssa.Extract); ok && ex.Index == 1 {
+						okv = ex
+					}
+				}
+			}
+			if okv == nil {
+				return
+			}
+			n++
+			r.Instances++
+			key := fmt.Sprintf("minifySwitchStmt search loop #%d: unknown equality ends the search", n)
+			// the If on ok
+			bad := ""
+			for blk := range body {
+				if len(blk.Instrs) == 0 {
+					continue
+				}
+				ifi, isIf := blk.Instrs[len(blk.Instrs)-1].(*ssa.If)
+				if !isIf {
+					continue
+				}
+				cond := ifi.Cond
+				falseIdx := 1
+				if u, isU := cond.(*ssa.UnOp); isU && u.Op == token.NOT {
+					cond, falseIdx = u.X, 0
+				}
+				if cond != okv {
+					continue
+				}
+				unknown := blk.Succs[falseIdx]
+				// does the unknown edge come back to the header while staying in the loop?
+				if unknown == header {
+					bad = p.Pos(firstPos(blk))
+					continue
+				}
+				if _, back := reachesExitAvoiding(unknown, func(x *ssa.BasicBlock) bool { return x == header }, func(x *ssa.BasicBlock) bool { return !body[x] }, false); back && body[unknown] {
+					bad = p.Pos(firstPos(blk))
+				}
+			}
+			if bad == "" {
+				r.OK(key, true, "the unknown edge leaves the loop")
+			} else {
+				r.Fail(key, p.Pos(c.Pos()), "when the equality of a case with the discriminant is unknown the search simply moves on to the next case: `switch (1n) { case 0x1n: case 2n: a(); break; case 1n: b() }` takes `case 1n`, drops the empty `case 0x1n:` and calls b() where the program calls a()")
+			}
+		})
+	}
 	if !r.Anchor("equality tests inside a loop of minifySwitchStmt", n >= 1) {
 		return r
 	}
